@@ -41,6 +41,27 @@ fn rand_triang<R: Ent>(rng: &mut StdRng, n: usize, upper: bool, dens: f64, st: &
 
 fn tname(t: TriangularType) -> &'static str { if t.is_upper() { "upper" } else { "lower" } }
 
+fn schur_events<R: Ent>(t: &mut Tracer, st: &mut Stats, tt: TriangularType, full: &SpMat<R>, r: usize, pools: &[(usize, rayon::ThreadPool)], withs: &[bool], id: &str) where for<'x> &'x R: RingOps<R> {
+    for (nt, p) in pools.iter() {
+        for &with in withs.iter() {
+            emit::<R>(t, st, "schur", json!({"t": tname(tt), "m": sp_json(full), "r": r, "id": id, "threads": nt}), |e| {
+                let (s, ts, tg, x) = p.install(|| {
+                    let sch = Schur::from_partial_triangular(tt, full, r, with);
+                    let [a, b, _, _] = full.divide4((r, r));
+                    let x = solve_triangular(tt, &a, &b);
+                    let (s, ts, tg) = sch.disassemble(); (s, ts, tg, x) });
+                e["s"] = sp_json(&s); e["x"] = sp_json(&x);
+                let z = json!({"m": 0, "n": 0, "a": []});
+                e["tr"] = match (ts, tg) {
+                    (Some(ts), Some(tg)) => json!({"with": true, "fsrc": sp_json(&ts.forward_mat()), "bsrc": sp_json(&ts.backward_mat()), "ftgt": sp_json(&tg.forward_mat()), "btgt": sp_json(&tg.backward_mat())}),
+                    (None, None) => json!({"with": false, "fsrc": z, "bsrc": z, "ftgt": z, "btgt": z}),
+                    _ => json!("INCONSISTENT") };
+                if with != e["tr"]["with"].as_bool().unwrap_or(!with) { e["tr"] = json!("TRANS-FLAG-IGNORED"); }
+            });
+        }
+    }
+}
+
 fn case<R: Ent>(rng: &mut StdRng, t: &mut Tracer, st: &mut Stats, cid: usize, maxn: usize) where for<'x> &'x R: RingOps<R> {
     st.cases += 1;
     t.emit(&json!({"op": "newcase", "res": "ok", "ring": R::ring(), "case": cid}));
@@ -70,23 +91,16 @@ fn case<R: Ent>(rng: &mut StdRng, t: &mut Tracer, st: &mut Stats, cid: usize, ma
     // combine_blocks drops explicit zeros; re-introduce some through a raw constructor
     let full = { let d = sp_dense(&full); let pat: Vec<Vec<bool>> = (0..m).map(|_| (0..n2).map(|_| rng.gen_bool(0.1)).collect()).collect();
                  sp_from_dense(&d, m, n2, &|i, j| pat[i][j] && !(i < r && j < r && ((upper && i > j) || (!upper && i < j)))) };
-    for (nt, p) in pools.iter() {
-        for with in [false, true] {
-            emit::<R>(t, st, "schur", json!({"t": tname(tt), "m": sp_json(&full), "r": r, "id": "schur", "threads": nt}), |e| {
-                let (s, ts, tg, x) = p.install(|| {
-                    let sch = Schur::from_partial_triangular(tt, &full, r, with);
-                    let [a, b, _, _] = full.divide4((r, r));
-                    let x = solve_triangular(tt, &a, &b);
-                    let (s, ts, tg) = sch.disassemble(); (s, ts, tg, x) });
-                e["s"] = sp_json(&s); e["x"] = sp_json(&x);
-                let z = json!({"m": 0, "n": 0, "a": []});
-                e["tr"] = match (ts, tg) {
-                    (Some(ts), Some(tg)) => json!({"with": true, "fsrc": sp_json(&ts.forward_mat()), "bsrc": sp_json(&ts.backward_mat()), "ftgt": sp_json(&tg.forward_mat()), "btgt": sp_json(&tg.backward_mat())}),
-                    (None, None) => json!({"with": false, "fsrc": z, "bsrc": z, "ftgt": z, "btgt": z}),
-                    _ => json!("INCONSISTENT") };
-                if with != e["tr"]["with"].as_bool().unwrap_or(!with) { e["tr"] = json!("TRANS-FLAG-IGNORED"); }
-            });
-        }
+    schur_events::<R>(t, st, tt, &full, r, &pools, &[false, true], "schur");
+    // one of the three off-pivot blocks entirely zero (D = 0: the complement is -C A^-1 B alone; B = 0 or C = 0: one transfer map
+    // degenerates to a projection / inclusion while the other one does not), the other blocks dense
+    for which in 1..=3usize {
+        let (r, p, q) = (rng.gen_range(1..=3usize), rng.gen_range(1..=3usize), rng.gen_range(1..=3usize));
+        let ta = rand_triang::<R>(rng, r, upper, 0.6, st);
+        let mut blk = |mm: usize, nn: usize, w: usize| if w == which { SpMat::<R>::zero((mm, nn)) } else { rand_sp::<R>(rng, mm, nn, 0.85, 3, 0.0) };
+        let (bb, cc, dd) = (blk(r, q, 1), blk(p, r, 2), blk(p, q, 3));
+        let full = SpMat::combine_blocks([&ta, &bb, &cc, &dd]);
+        schur_events::<R>(t, st, tt, &full, r, &pools[0..1], &[true], &format!("schur_zero_block_{}", which));
     }
     // ---------------- direct-sum decomposition: a permuted block-diagonal matrix plus zero rows / columns
     let nb = rng.gen_range(0..4usize);
